@@ -239,6 +239,50 @@ def _syntactically_pure(model: Model, name: str, depth: int = 0, _seen: Optional
     return res
 
 
+MUTATING_CONTAINER_METHODS = {"append", "extend", "insert", "pop", "remove", "clear", "update", "setdefault", "add", "discard", "sort", "reverse",
+                              "popitem", "appendleft", "popleft", "__setitem__", "__delitem__"}
+
+
+def _mod_set(model: Model, name: str, depth: int = 0, _seen: Optional[set] = None) -> frozenset:
+    """Names of the attributes that some definition of a method called `name` may (transitively) store to; "[]" stands for a store to an
+    element of / a mutating call on a container, "*" for anything (analysis gave up)."""
+    memo = model.__dict__.setdefault("_symflow_mods", {})
+    if name in memo:
+        return memo[name]
+    seen = _seen if _seen is not None else set()
+    if name in seen:
+        return frozenset()
+    seen.add(name)
+    cands = model.methods_named(name)
+    out: set = set()
+    if not cands:
+        if name in MUTATING_CONTAINER_METHODS:
+            out.add("[]")
+        elif name not in PURE_METHODS:
+            out.add("*")
+    elif depth > 6:
+        out.add("*")
+    else:
+        for f in cands:
+            for n in ast.walk(f.node):
+                if isinstance(n, (ast.Assign, ast.AugAssign, ast.AnnAssign, ast.For, ast.With, ast.Delete, ast.NamedExpr)):
+                    for x in ast.walk(n):
+                        if isinstance(getattr(x, "ctx", None), (ast.Store, ast.Del)):
+                            if isinstance(x, ast.Attribute):
+                                out.add(x.attr)
+                            elif isinstance(x, ast.Subscript):
+                                out.add("[]")
+                elif isinstance(n, ast.Call):
+                    if isinstance(n.func, ast.Attribute):
+                        out |= _mod_set(model, n.func.attr, depth + 1, seen)
+                    elif isinstance(n.func, ast.Name) and n.func.id in ("setattr", "delattr", "exec", "eval", "vars"):
+                        out.add("*")
+    res = frozenset(out)
+    if _seen is None:
+        memo[name] = res
+    return res
+
+
 class _Walker:
     def __init__(self, fn: FuncInfo, model: Optional[Model] = None) -> None:
         self.fn = fn
@@ -248,6 +292,7 @@ class _Walker:
         self.tries = 0
         self.stores: dict[str, int] = {}
         self.callver: dict[str, int] = {}
+        self.callmods: dict[tuple, int] = {}  # (receiver, attribute the callee may store) -> number of such calls so far
 
     # -- expressions -------------------------------------------------------------------------
     def ev(self, e: ast.AST, env: dict) -> ast.AST:
@@ -283,7 +328,11 @@ class _Walker:
                     v = self.stores.get(k, 0)
                     for p, c in self.callver.items():
                         if k.startswith(p) and k[len(p):len(p) + 1] in (".", "["):
-                            v += c
+                            if isinstance(n, ast.Attribute):
+                                # only the calls whose callee may store an attribute of that name
+                                v += self.callmods.get((p, n.attr), 0) + self.callmods.get((p, "*"), 0)
+                            else:
+                                v += c
                     n._ver = v  # type: ignore[attr-defined]
                 else:
                     n._ver = 0  # type: ignore[attr-defined]
@@ -305,25 +354,25 @@ class _Walker:
                 except Exception:
                     continue
                 self.callver[k] = self.callver.get(k, 0) + 1
+                for a_ in _mod_set(self.model, c.func.attr):
+                    self.callmods[(k, a_)] = self.callmods.get((k, a_), 0) + 1
                 if env is not None:
                     self._invalidate(env, c.func.value)
 
     # -- versions are per path: fork at a branch, join (max) where paths meet ------------------
     def _vsave(self):
-        return dict(self.stores), dict(self.callver)
+        return dict(self.stores), dict(self.callver), dict(self.callmods)
 
     def _vset(self, v) -> None:
-        self.stores, self.callver = dict(v[0]), dict(v[1])
+        self.stores, self.callver, self.callmods = dict(v[0]), dict(v[1]), dict(v[2])
 
     def _vjoin(self, vs: list) -> None:
-        st: dict = {}
-        cv: dict = {}
-        for a, b in vs:
-            for k, n in a.items():
-                st[k] = max(st.get(k, 0), n)
-            for k, n in b.items():
-                cv[k] = max(cv.get(k, 0), n)
-        self.stores, self.callver = st, cv
+        outs: list = [{}, {}, {}]
+        for tup in vs:
+            for o, d in zip(outs, tup):
+                for k, n in d.items():
+                    o[k] = max(o.get(k, 0), n)
+        self.stores, self.callver, self.callmods = outs
 
     # -- statements --------------------------------------------------------------------------
     def block(self, stmts: Sequence[ast.stmt], env: dict, cond: Cond) -> Optional[tuple[dict, Cond]]:
@@ -764,6 +813,8 @@ def _atom_theory(atoms: list) -> list:
                     out.append([(a, True), (b, True)])
         if a.startswith("isinstance(") and a.endswith(", str)"):
             x = a[len("isinstance("):-len(", str)")]
+            if f"isinstance({x}, int)" in aset:
+                out.append([(a, True), (f"isinstance({x}, int)", True)])
             for b in (f"Is({x}, None)", f"Is(None, {x})"):
                 if b in aset:
                     out.append([(a, True), (b, True)])
@@ -832,10 +883,10 @@ class Printer:
                     pol = not pol
                     continue
                 # type(x) == str  ->  isinstance(x, str)   (no str subclasses in this code base: parser tokens are str or ParseResults)
-                if isinstance(op, ast.Eq):
+                if isinstance(op, (ast.Eq, ast.Is)):
                     for a_, b_ in ((e.left, e.comparators[0]), (e.comparators[0], e.left)):
                         if isinstance(a_, ast.Call) and isinstance(a_.func, ast.Name) and a_.func.id == "type" and len(a_.args) == 1 \
-                                and isinstance(b_, ast.Name) and b_.id == "str":
+                                and isinstance(b_, ast.Name) and b_.id in ("str", "int"):
                             return ast.Call(func=ast.Name(id="isinstance", ctx=ast.Load()), args=[a_.args[0], b_], keywords=[]), pol
                 # orderings: only `<` survives --  a > b = b < a ;  a >= b = not (a < b) ;  a <= b = not (b < a)
                 if isinstance(op, ast.Gt):
@@ -980,28 +1031,35 @@ class Printer:
         atoms = sorted(acc)
         if len(atoms) > self.MAX_ATOMS:
             return None
-        dropped: dict = {}
+        n = len(atoms)
+        theory = _atom_theory(atoms)
+        DC = None  # an impossible combination of atoms: don't care
+        rows: list = []
+        for i in range(1 << n):
+            asg = {a: bool((i >> j) & 1) for j, a in enumerate(atoms)}
+            if any(all(asg[a] == v for a, v in clash) for clash in theory):
+                rows.append(DC)
+                continue
+            rows.append(tuple(self._evalb(b, asg) for b in bs))
+        # drop atoms nothing depends on (on the possible combinations), projecting the table
         while True:
             n = len(atoms)
-            rows = []
-            theory = _atom_theory(atoms)
-            for i in range(1 << n):
-                asg = {a: bool((i >> j) & 1) for j, a in enumerate(atoms)}
-                if any(all(asg[a] == v for a, v in clash) for clash in theory):
-                    rows.append(tuple(False for _ in bs))  # an impossible combination of atoms: don't care
-                    continue
-                asg.update(dropped)  # atoms nothing depends on: any fixed value
-                rows.append(tuple(self._evalb(b, asg) for b in bs))
-            # drop atoms nothing depends on
             drop = None
-            for j, a in enumerate(atoms):
-                if all(rows[i] == rows[i ^ (1 << j)] for i in range(1 << n)):
-                    drop = a
+            for j in range(n):
+                if all(rows[i] is DC or rows[i ^ (1 << j)] is DC or rows[i] == rows[i ^ (1 << j)] for i in range(1 << n)):
+                    drop = j
                     break
             if drop is None:
                 break
-            atoms.remove(drop)
-            dropped[drop] = False
+            lo = (1 << drop) - 1
+            new_rows = []
+            for i2 in range(1 << (n - 1)):
+                i0 = ((i2 & ~lo) << 1) | (i2 & lo)
+                a, b = rows[i0], rows[i0 | (1 << drop)]
+                new_rows.append(a if a is not DC else b)
+            rows = new_rows
+            del atoms[drop]
+        rows = [r if r is not DC else tuple(False for _ in bs) for r in rows]
         tabs = []
         for k in range(len(bs)):
             v = 0
